@@ -24,6 +24,10 @@ pub struct HiddenCase {
     /// kind 0 wrap_iter forwards, 1 wrap_iter from the back, 2 wrap_stream (futures), 3 wrap_read
     #[serde(default)]
     adaptor: Option<(u8, u8, u8)>,
+    /// 25 ordinary ticks at the creation instant first: the refresh limiter's burst is used up, so that
+    /// the forced draws of the history meet an empty bucket
+    #[serde(default)]
+    burn: bool,
 }
 
 /// a stream of `n` ready items
@@ -43,7 +47,20 @@ impl futures_core::Stream for Ready {
 fn drive_adaptor(pb: &ProgressBar, kind: u8, n: u8, k: u8) {
     use futures_core::Stream;
     let pb = pb.clone().with_finish(crate::multi::finish_of(k));
-    match kind % 4 {
+    match kind % 6 {
+        4 => {
+            use indicatif::ParallelProgressIterator;
+            use rayon::prelude::*;
+            let sum: u64 = (0..n as u64).into_par_iter().progress_with(pb).map(|x| x + 1).sum();
+            assert_eq!(sum, (1..=n as u64).sum::<u64>());
+        }
+        5 => {
+            use indicatif::ParallelProgressIterator;
+            use rayon::prelude::*;
+            let items: Vec<u64> = (0..n as u64).collect();
+            let v: Vec<(usize, u64)> = items.into_par_iter().progress_with(pb).enumerate().collect();
+            assert_eq!(v.len(), n as usize);
+        }
         0 => assert_eq!(pb.wrap_iter(0..n).count(), n as usize),
         1 => assert_eq!(pb.wrap_iter(0..n).rev().count(), n as usize),
         2 => {
@@ -142,6 +159,15 @@ fn run_hidden(c: &HiddenCase) -> CaseResult {
     let mut v = Verdict::default();
     let all: Vec<(bool, &BOp)> = c.pre.iter().map(|o| (true, o)).chain(c.ops.iter().map(|o| (false, o))).collect();
     let mut removed = c.way % 5 != 3;
+    if c.burn && c.way % 5 != 3 {
+        let calls0 = spy.ncalls();
+        for _ in 0..25 {
+            vis.tick();
+            catch(|| hid.tick()).map_err(|p| Fail::new("panic", format!("hidden bar (way {}): tick panicked: {p}", c.way % 5)))?;
+        }
+        ensure!(spy.ncalls() == calls0, "not_silent", "hidden way {}: 25 ticks made {} terminal call(s)", c.way % 5, spy.ncalls() - calls0);
+        v.label("limiter_burst_used_up_first");
+    }
     let mut state_change = false;
     let mut forced = false;
     for (i, (is_pre, op)) in all.iter().enumerate() {
@@ -178,7 +204,7 @@ fn run_hidden(c: &HiddenCase) -> CaseResult {
         catch(|| drive_adaptor(&vis, kind, n, k)).map_err(|p| Fail::new("panic", format!("visible twin: adaptor {kind} panicked: {p}")))?;
         catch(|| drive_adaptor(&hid, kind, n, k)).map_err(|p| Fail::new("panic", format!("hidden bar (way {}): adaptor {kind} panicked: {p}", c.way % 5)))?;
         let n_calls = spy.ncalls() - calls_before;
-        let what = ["wrap_iter", "wrap_iter(..).rev()", "wrap_stream", "wrap_read"][(kind % 4) as usize];
+        let what = ["wrap_iter", "wrap_iter(..).rev()", "wrap_stream", "wrap_read", "rayon progress_with(..).map().sum()", "rayon progress_with(..).enumerate().collect()"][(kind % 6) as usize];
         ensure!(n_calls == 0, "not_silent", "hidden way {}: driving {what} over {n} items made {n_calls} terminal call(s)", c.way % 5);
         let (a, b) = (snap(&vis), snap(&hid));
         ensure!(a == b, "state_diverged", "hidden way {}: after {what} over {n} items with finish behaviour {k} ended (ops {:?}): (position, length, message, prefix, finished, elapsed, eta, per_sec bits) = {b:?}, the visible twin has {a:?}", c.way % 5, c.ops);
@@ -205,8 +231,8 @@ fn case_strategy(tier: Tier) -> BoxedStrategy<HiddenCase> {
     let n = tier.pick(20, 40);
     let tab_msg = prop_oneof![Just(BOp::SetMessage("a\tb".into())), Just(BOp::SetPrefix("\tp".into())), (0u8..12).prop_map(BOp::SetTabWidth)];
     let op = prop_oneof![8 => c01::bop_strategy(20), 2 => tab_msg];
-    (0u8..5, proptest::option::weighted(0.8, 0u64..100), proptest::collection::vec(op.clone(), 0..6), proptest::collection::vec(op, 0..n), proptest::option::weighted(0.4, (0u8..4, 0u8..8, 0u8..5)))
-        .prop_map(|(way, len, pre, ops, adaptor)| HiddenCase { way, len, pre, ops, adaptor })
+    (0u8..5, proptest::option::weighted(0.8, 0u64..100), proptest::collection::vec(op.clone(), 0..6), proptest::collection::vec(op, 0..n), proptest::option::weighted(0.4, (0u8..6, 0u8..8, 0u8..5)), proptest::bool::weighted(0.3))
+        .prop_map(|(way, len, pre, ops, adaptor, burn)| HiddenCase { way, len, pre, ops, adaptor, burn })
         .boxed()
 }
 
@@ -224,10 +250,10 @@ pub fn property() -> Property {
             name: "twins",
             rule: "the C01 op alphabet (plus texts with tabs and set_tab_width) applied to a visible bar and to a twin hidden in one of four ways (hidden target, Term over a non-tty fd, member of a hidden MultiProgress, member of a visible MultiProgress removed after 0-5 ops incl. finishing); the hidden twin must make no terminal call / write no byte and all getters must agree after every op; non-trivial = a state change and a forced-draw op occurred",
             strategy: case_strategy,
-            cases: |t| t.pick(5_000, 800_000),
+            cases: |t| t.pick(20_000, 800_000),
             run: run_hidden,
             signature: no_signature,
-            essential: &["way_hidden_target", "way_not_a_tty", "way_hidden_multi", "way_removed_from_multi", "way_moved_from_visible_to_hidden_multi", "state_change_and_forced_draw", "finished_before_removal", "adaptor_driven_to_its_end"],
+            essential: &["way_hidden_target", "way_not_a_tty", "way_hidden_multi", "way_removed_from_multi", "way_moved_from_visible_to_hidden_multi", "state_change_and_forced_draw", "finished_before_removal", "adaptor_driven_to_its_end", "limiter_burst_used_up_first"],
             workers: w,
             decode: None,
         })],
